@@ -24,7 +24,7 @@ JUNK = [b"\x00", b"\xff\xfe", b"<", b">", b"&", b"-->", b"{\\an8}", b"</b>", b"<
 # format-aware junk: legal-looking tokens of the format dropped where they make no sense
 JUNK_BY_FMT = {
   "srt": [b"<![foo[", b"<font color>", b"<font color=\"\">", b"<!DOCTYPE x [", b"<?pi", b"</font>", b"{\\i}", b"<b", b"00:00:01,000 --> 00:00:02",
-          b"--> ", b"<font face=\"x\">"],
+          b"--> ", b"<font face=\"x\">", b"<font color=\"rgba(255,0,0,256)\">", b"<font color=\"rgb(0,0,999)\">", b"<font color=\"#ff\">"],
   "vtt": [b"<rt>", b"</ruby>", b"<ruby>", b"<c.>", b"<v>", b"<lang>", b"<00:00:01.000>", b"<99:99:99.999>", b"&#x110000;", b"&#xD800;", b"NOTE", b"STYLE",
           b"REGION", b"line:abc", b"position:200%", b"size:-1%", b"align:", b"vertical:xx", b"00:00.000 --> 00:01.000 line:0", b"-->"],
   "scc": [b"94a1 94a1", b"1220 1220", b"9724 9724", b"942f", b"94ad 94ad", b"9425 9425", b"9429 9429", b"9420 9420", b"97a1", b"zzzz", b"94", b"942c942c",
